@@ -37,6 +37,34 @@ type Proc struct {
 	done   chan struct{}
 	werr   error
 	rdDone chan struct{}
+	// slave is kept open by the harness until the program's last output has been read: when the last
+	// descriptor of the slave side is closed the kernel may throw away what the master has not read yet
+	// (a message written just before exit would be lost now and then).
+	slave     *os.File
+	slaveOnce sync.Once
+}
+
+// releaseSlave closes the harness's own descriptor of the slave side once the output has settled.
+func (p *Proc) releaseSlave() {
+	p.slaveOnce.Do(func() {
+		if p.slave == nil {
+			return
+		}
+		// wait until nothing new has arrived for a little while
+		last, stable := -1, 0
+		for i := 0; i < 100 && stable < 3; i++ {
+			p.mu.Lock()
+			n := p.buf.Len()
+			p.mu.Unlock()
+			if n == last {
+				stable++
+			} else {
+				stable, last = 0, n
+			}
+			time.Sleep(4 * time.Millisecond)
+		}
+		p.slave.Close()
+	})
 }
 
 // OpenPty returns the master side and the slave's path, with a window size set.
@@ -106,7 +134,7 @@ func Start(bin string, args []string, o Opts) (*Proc, error) {
 			m.Close()
 			return nil, err
 		}
-		s.Close()
+		p.slave = s
 		go func() {
 			defer close(p.rdDone)
 			b := make([]byte, 65536)
@@ -240,6 +268,7 @@ func (p *Proc) Exited() (bool, int) {
 func (p *Proc) WaitExit(d time.Duration) (bool, int) {
 	select {
 	case <-p.done:
+		p.releaseSlave()
 		select {
 		case <-p.rdDone:
 		case <-time.After(300 * time.Millisecond):
@@ -261,6 +290,11 @@ func (p *Proc) Kill() {
 	case <-p.done:
 	case <-time.After(2 * time.Second):
 	}
+	p.slaveOnce.Do(func() {
+		if p.slave != nil {
+			p.slave.Close()
+		}
+	})
 	if p.Master != nil {
 		p.Master.Close()
 	}
@@ -272,6 +306,11 @@ func (p *Proc) Close() {
 		p.Kill()
 		return
 	}
+	p.slaveOnce.Do(func() {
+		if p.slave != nil {
+			p.slave.Close()
+		}
+	})
 	if p.Master != nil {
 		p.Master.Close()
 	}
